@@ -266,6 +266,85 @@ func generate(r *rng.R, thorough bool, index int) *history {
 	if last == nil {
 		last = &scheduler.VerifState{}
 	}
+	// stale re-attachment: two clients share one task; the first leaves; just
+	// before its operation's abandonment timeout a WaitExecution call for that
+	// operation looks it up and is held at its second critical section; the
+	// timeout passes and the operation is removed; only then the call goes on.
+	// If it still gets attached, it leaves again and the timeout passes once more.
+	live := func(id int) (atGate, returned bool) {
+		w.ct.mu.Lock()
+		defer w.ct.mu.Unlock()
+		c := w.ct.calls[id]
+		if c == nil {
+			return false, true
+		}
+		return c.atGate, c.returned
+	}
+	leave := func(id int) {
+		for i := 0; i < 3; i++ {
+			at, ret := live(id)
+			if ret {
+				return
+			}
+			if at {
+				do(opJSON{K: "enter", C: id, DT: 1 + int64(r.Intn(500))})
+			} else {
+				do(opJSON{K: "cancel", C: id})
+			}
+		}
+	}
+	staleReattach := func() {
+		var cands []genPQ
+		for _, p := range pqs {
+			for _, q := range last.PlatformQueues {
+				if q.InstanceNamePrefix == instanceString(p.prefix) && platformStrings[q.Platform] == p.plat {
+					cands = append(cands, p)
+					break
+				}
+			}
+		}
+		if len(cands) == 0 {
+			return
+		}
+		p := cands[r.Intn(len(cands))]
+		dg := 40 + uint64(r.Intn(5))*2 + p.plat%2
+		if dg%5 == 3 {
+			dg += 2
+		}
+		inst := append(append([]uint64{}, p.prefix...), instances[r.Intn(2)]...)
+		nsc := scsFor(inst, dg%2)
+		mk := func(keys []uint64) *execScript {
+			return &execScript{Inst: inst, Plat: dg % 2, Digest: dg, Prio: 0, Keys: keys, SelIdx: r.Intn(nsc),
+				SelDur: int64(r.Intn(50)) * sec, SelTO: int64(1+r.Intn(100)) * sec, Learner: genLearner(r, &learnerID, nsc, 0)}
+		}
+		idxA := int(w.uuids.n)
+		ca := newCall()
+		do(opJSON{K: "exec", C: ca, DT: dt() % 1000, Exec: mk([]uint64{1, 3})})
+		if int(w.uuids.n) != idxA+1 {
+			return
+		}
+		cb := newCall()
+		do(opJSON{K: "exec", C: cb, DT: dt() % 1000, Exec: mk([]uint64{2, 3})})
+		if _, ret := live(cb); ret || int(w.uuids.n) != idxA+2 {
+			return
+		}
+		leave(ca)
+		if _, ret := live(ca); !ret {
+			return
+		}
+		cw := newCall()
+		do(opJSON{K: "wait", C: cw, DT: h.Cfg.NoWait - 2000 - int64(r.Intn(1000)), Name: idxA})
+		if at, ret := live(cw); ret || !at {
+			return
+		}
+		do(opJSON{K: "tick", C: newCall(), DT: 4000 + int64(r.Intn(1000))})
+		do(opJSON{K: "enter", C: cw, DT: 1 + int64(r.Intn(500))})
+		if _, ret := live(cw); ret {
+			return
+		}
+		leave(cw)
+		do(opJSON{K: "tick", C: newCall(), DT: h.Cfg.NoWait + 1000 + int64(r.Intn(1000))})
+	}
 	n := 30 + r.Intn(61)
 	if thorough {
 		n = 60 + r.Intn(120)
@@ -444,6 +523,8 @@ func generate(r *rng.R, thorough bool, index int) *history {
 		case x < 98:
 			wk := workers[r.Intn(len(workers))]
 			do(opJSON{K: "killq", C: newCall(), DT: dt(), SK: &wk.SK, Code: 10})
+		case x == 99 && !policy && !retry && r.Chance(60):
+			staleReattach()
 		default:
 			do(opJSON{K: "tick", C: newCall(), DT: dt()})
 		}
